@@ -28,7 +28,7 @@ CLAIMS = {
              'ones (cover columns and final_source) (KEY); cached maps and the memoised hash are write-once — only '
              'readers and first-writers (VacantEntry::insert / Entry::or_insert*) touch the map cache, the cache fields '
              'are never reassigned (WRITEONCE); memo cells are used through get/get_or_init/clone only and every initialiser '
-             'reads data fields only (MEMO). NOT decided: that replay from (cached map + rope) attributes like the wrapped source. Added: both map collectors (map() and the cache-filling tee) feed every mapping to the encoder unconditionally (ENCODE-ALL), a necessary condition of replay transparency; content views forward (DELEG). Round 3: the cache is never traversed, only read under the caller\'s key (KEY); MEMO covers every OnceLock/OnceCell cell; MEMO-RESET. Round 4: ENC-DEDUP — the cached map is produced by an encoder that does not swallow differing segments.',
+             'reads data fields only (MEMO). NOT decided: that replay from (cached map + rope) attributes like the wrapped source. Added: both map collectors (map() and the cache-filling tee) feed every mapping to the encoder unconditionally (ENCODE-ALL), a necessary condition of replay transparency; content views forward (DELEG). Round 3: the cache is never traversed, only read under the caller\'s key (KEY); MEMO covers every OnceLock/OnceCell cell; MEMO-RESET. Round 4: ENC-DEDUP — the cached map is produced by an encoder that does not swallow differing segments. TEE-FORWARD registered here as well (the first, cache-filling stream is as good as the wrapped source\'s own).',
         technique='who-may-call / receiver-type allow-list over resolved callees, def-use key provenance on MIR',
         design_ref='§5 C10'),
     'C14': dict(
@@ -37,7 +37,7 @@ CLAIMS = {
              'calls on self) reads cache state except through a memo accessor, memo cells are never compared/hashed/mutated '
              'themselves and all initialisers of a cell agree (MEMO); `==` of every type compares every data field (EQCOVER); '
              'Hash reads no data field Eq ignores, i.e. a==b implies equal hashes (HASH-IN-EQ); every hand-written Clone copies '
-             'every data field from self (CLONECOVER). NOT decided: "equal values give equal answers from every observer" as behaviour. Also registered here because the clauses depend on them: RESET/FRESH (the sorted accessor MEMO trusts is pure only if they hold), KEY/WRITEONCE (repeating an observer call never changes its answer), HASHALL (a container hash covers every element). Round 3: a cache shared between clones requires immutable data (CLONECOVER shared-cache); MEMO-RESET. Round 3b: EQ-ALLPATHS — in a hand-written eq, every path to `true` compares every data field (no data-dependent shortcut to equality).',
+             'every data field from self (CLONECOVER). NOT decided: "equal values give equal answers from every observer" as behaviour. Also registered here because the clauses depend on them: RESET/FRESH (the sorted accessor MEMO trusts is pure only if they hold), KEY/WRITEONCE (repeating an observer call never changes its answer), HASHALL (a container hash covers every element). Round 3: a cache shared between clones requires immutable data (CLONECOVER shared-cache); MEMO-RESET. Round 3b: EQ-ALLPATHS — in a hand-written eq, every path to `true` compares every data field (no data-dependent shortcut to equality). Round 5: FRESH also requires that a copied sorted-flag comes with a copied index (Clone); EQ-ALLPATHS requires a length comparison next to an element-wise zip.',
         technique='field-access-set analysis (A-FIELDS) over Eq/Hash/Clone cones on MIR; DATA/CACHE classification by Freeze',
         design_ref='§5 C14'),
     'C18': dict(
@@ -72,7 +72,7 @@ CLAIMS = {
              'accepts (plus constant "version"), each bound to its namesake field (JSON-NAMES, read from the derived impls\' MIR '
              'and FIELDS constant), and through TryFrom every field is rebuilt from the raw field its own key is read into '
              '(JSON-FLOW) — so each field survives a round trip by name; several fields share a type, so a swap would compile. '
-             'NOT decided: escaping, parser totality, value equality after the round trip (simd-json/serde behaviour). Added: Option fields are skipped by Option::is_none only (JSON-SKIP: a present-but-empty value survives); the from_* cones touch no static / thread-local state (JSON-PURE). Round 3: raw fields of one type are converted by one call skeleton (JSON-SIBLING); IOERR for SourceMap::to_writer. Round 4: the raw fields feeding sources / sourcesContent / names have nullable entries (part of JSON-SIBLING).',
+             'NOT decided: escaping, parser totality, value equality after the round trip (simd-json/serde behaviour). Added: Option fields are skipped by Option::is_none only (JSON-SKIP: a present-but-empty value survives); the from_* cones touch no static / thread-local state (JSON-PURE). Round 3: raw fields of one type are converted by one call skeleton (JSON-SIBLING); IOERR for SourceMap::to_writer. Round 4: the raw fields feeding sources / sourcesContent / names have nullable entries (part of JSON-SIBLING). Round 5: JSON-ENTRIES — from_json / from_slice / from_reader hand the document to the JSON library whole (no loop, read or split of their own).',
         technique='constant/def-use extraction from derived Serialize/Deserialize MIR; field-flow through TryFrom',
         design_ref='§5 C15'),
     'C17': dict(
@@ -83,7 +83,7 @@ CLAIMS = {
              'has no recursion and its only loop consumes a slice iterator (DECODER-TOTAL; dev and, in thorough, release '
              'configuration); SourceMap::from_json/from_slice/from_reader add no panic site of their own and propagate every error '
              '(JSON-ENTRY; simd-json itself assumed total). NOT decided: panic-freedom of the streaming cone (≈250 arithmetic asserts, '
-             'indexing on map-supplied lines/indices) — reading found real panics there for wild maps; no discharge analysis is in reach. Added: CLAMP — ReplaceSource::source()/rope() slice the inner text only with bounds clamped to its length (replacement positions beyond the end are in the documented domain). Round 4: INDEX-GUARDED — forward abstract interpretation of every body in the zone domain (difference constraints over integer locations and container lengths; guards, resize/growth loops, len()-derived indices, closure entry facts, widening) proves `index < len` for 52 of the 70 `container[usize]` accesses and MIR bounds checks of the crate; the other 18 are listed with the invariant they rely on (grouped by element type, counted) and any additional unproven access is reported. Decides the upper bound only (not `x - 1` underflow, not range slicing / char boundaries). ENCODER-TOTAL — every overflow-checked subtraction / addition / shift and every table index of the mappings encoders is discharged by the zone analysis (found F9: `current_original_line + 1` overflowed for a wild map, fixed as 7ac4a9a); one subtraction relies on the sorted-segments domain and is listed as assumed.',
+             'indexing on map-supplied lines/indices) — reading found real panics there for wild maps; no discharge analysis is in reach. Added: CLAMP — ReplaceSource::source()/rope() slice the inner text only with bounds clamped to its length (replacement positions beyond the end are in the documented domain). Round 4: INDEX-GUARDED — forward abstract interpretation of every body in the zone domain (difference constraints over integer locations and container lengths; guards, resize/growth loops, len()-derived indices, closure entry facts, widening) proves `index < len` for 52 of the 70 `container[usize]` accesses and MIR bounds checks of the crate; the other 18 are listed with the invariant they rely on (grouped by element type, counted) and any additional unproven access is reported. Decides the upper bound only (not `x - 1` underflow, not range slicing / char boundaries). ENCODER-TOTAL — every overflow-checked subtraction / addition / shift and every table index of the mappings encoders is discharged by the zone analysis (found F9: `current_original_line + 1` overflowed for a wild map, fixed as 7ac4a9a); one subtraction relies on the sorted-segments domain and is listed as assumed. VIEWS-TOTAL — the content views of ReplaceSource do no unchecked position arithmetic.',
         technique='interval/range discharge of MIR Assert terminators with guard provenance; loop/recursion census; panic-site census',
         design_ref='§5 C17'),
     'C07': dict(
@@ -143,7 +143,7 @@ CLAIMS = {
              'either forwards the child numbering unchanged or renumbers through its tables, and every OriginalLocation it builds takes the index '
              'from the matching origin; a child-local index never leaks into a renumbered space (IDX: closure-, table- and adaptor-aware origin '
              'analysis); ReplaceSource advances the original column only under the content check (ADVANCE). NOT decided: positions, that the '
-             'translated entry is the right one beyond its numbering, the amount of the advance. Added: the guard\'s verdict is the content check\'s own result for that site, not a remembered one (ADVANCE freshness); a chunk delivered with the child\'s own location object counts as child-local for both index kinds (IDX forwarded). Round 4: FORWARD-ALL — ConcatSource forwards every child notification (or records a pending close) on every path. STICKY registered here as well (an empty child must not clear the pending close).',
+             'translated entry is the right one beyond its numbering, the amount of the advance. Added: the guard\'s verdict is the content check\'s own result for that site, not a remembered one (ADVANCE freshness); a chunk delivered with the child\'s own location object counts as child-local for both index kinds (IDX forwarded). Round 4: FORWARD-ALL — ConcatSource forwards every child notification (or records a pending close) on every path. STICKY registered here as well (an empty child must not clear the pending close). TEE-FORWARD registered here as well.',
         technique='index-space origin (taint-style) dataflow over MIR expression trees with closure capture and table summaries; guard provenance',
         design_ref='§5 C06'),
     'C08': dict(
@@ -159,7 +159,7 @@ CLAIMS = {
         text='Static: the index-table discipline of the combined-map combinator — both index kinds are renumbered and both emitting '
              'aggregates take source/name indices only from the announced (global) numbering or tables filled from it; outer/inner local '
              'indices are used as keys only (IDX); each of its six de-duplication inserts stores len() and is followed by the announcement of '
-             'that value (PAIR). NOT decided: the binary search, identity-column adjustment, name matching, fallback semantics. Added: an announced fresh index is paired with an insertion into the same de-duplication map (PAIR converse); outer-name lookups that can reach an inner-mapped location are dominated by the name-vs-original-text comparison (NAMECHECK). Round 3: KEYSPACE and SIDES (translation tables are keyed in one numbering; tables handed to one helper belong to one child stream). Round 4: CTOR-VERBATIM — SourceMapSource constructors store the remove_original_source request as given.',
+             'that value (PAIR). NOT decided: the binary search, identity-column adjustment, name matching, fallback semantics. Added: an announced fresh index is paired with an insertion into the same de-duplication map (PAIR converse); outer-name lookups that can reach an inner-mapped location are dominated by the name-vs-original-text comparison (NAMECHECK). Round 3: KEYSPACE and SIDES (translation tables are keyed in one numbering; tables handed to one helper belong to one child stream). Round 4: CTOR-VERBATIM — SourceMapSource constructors store the remove_original_source request as given. Round 5: CTOR-VERBATIM covers every constructor field (value, name, maps, original source), not only the removal flag.',
         technique='index-space origin dataflow + post-dominator pairing on MIR',
         design_ref='§5 C09'),
     'C11': dict(
@@ -167,7 +167,7 @@ CLAIMS = {
         text='Static: in every chunk stream each new index is dense (len() of the de-duplication map) and announced with that same value '
              'on every path after insertion (PAIR, 10 sites); eager announcers complete before delivery and never-announced names are never '
              'emitted (EAGER); indices used come from the announced numbering (IDX); the mappings string consists only of base64 digits, "," '
-             'and ";" (ALPHABET, sound for that clause). NOT decided: strictly increasing positions, lines >= 1, positions inside the text. Added: PAIR converse and IDX forwarded (see C09/C06). Still NOT decided: position arithmetic (seeded C11-m1 is not detected).',
+             'and ";" (ALPHABET, sound for that clause). NOT decided: strictly increasing positions, lines >= 1, positions inside the text. Added: PAIR converse and IDX forwarded (see C09/C06). Still NOT decided: position arithmetic (seeded C11-m1 is not detected). Round 5: TEE-FORWARD — the cache-filling tee forwards every chunk / source / name notification to the caller on every path.',
         technique='post-dominator pairing, loop ordering, origin dataflow, constant byte-set dataflow on MIR',
         design_ref='§5 C11'),
 }
